@@ -42,6 +42,7 @@ def build():
     # syntax_node.rs: SyntaxTreeBuilder hands the token texts to rowan's GreenNodeBuilder verbatim (C02) and records parser
     # diagnostics at the offset it is given (C12)
     U.file('crates/oq3_parser/src/syntax_kind/syntax_kind_enum.rs').item('enum', 'SyntaxKind')
+    U.file('crates/oq3_parser/src/shortcuts.rs').item('enum', 'StrStep')
     U.file('crates/oq3_parser/src/syntax_kind.rs').impl('SyntaxKind', [('is_trivia', dict(ret='r', props=P, spec='ensures r == (self is WHITESPACE || self is COMMENT),'))])
     U.raw('''pub mod rowan_green {
     use vstd::prelude::*;
@@ -146,7 +147,58 @@ ensures
 
     def rw(text_count):
         return [('D13', 'oq3_parser::', 'oq3_parser::', text_count)]
-    f.fn('build_tree', ret='r', props=P, trusted=True, 
+    # D39 (build_tree): `let mut builder = SyntaxTreeBuilder::default(); let is_eof = lexed.intersperse_trivia(&parser_output, &mut |step| SINK);
+    # TAIL`.  The call frame (a closure capturing `&mut builder`, passed as `&mut dyn FnMut`) is outside the dialect and stays a trusted
+    # stub; SINK (what happens for ONE step) and TAIL (tree + diagnostics) are copied from /repo into two helper functions and verified.
+    _pt = open(_os.path.join(_REPO, PARSING)).read()
+    _mb = _re.search(r"let is_eof = lexed\.intersperse_trivia\(&parser_output, &mut \|step\| (match step \{\n.*?\n    \})\);\n\n(    let \(node, mut errors\) = builder\.finish_raw\(\);\n.*?\n    \(node, errors, is_eof\))\n\}\n", _pt, _re.S)
+    U.build_tree_frame_ok = bool(_mb) and "let mut builder = SyntaxTreeBuilder::default();\n\n    let is_eof = lexed.intersperse_trivia" in _pt
+    if U.build_tree_frame_ok:
+        _sink = _mb.group(1).replace('msg.to_string()', 'oq3_msg_to_string(msg)')
+        _tail = _mb.group(2).replace('for (i, err) in lexed.errors() {', 'let mut oq3_it1 = lexed.errors();\n    loop\n@@TAIL_INV@@\n    {\n    match oq3_it1.next() { None => { break; } Some((i, err)) => {').replace('        errors.push(SyntaxError::new(err, text_range))\n    }', '        errors.push(SyntaxError::new(err, text_range))\n    } } }')
+        _inv = '''        invariant
+            errors@.len() + oq3_it1.rest().len() == n0 + lexed.err_tokens().len(), errors@.len() >= n0,
+            oq3_it1.rest() =~= lexed.err_tokens().skip(errors@.len() - n0),
+            errors@.take(n0 as int) == e0,
+            forall|k: int| 0 <= k < lexed.err_tokens().len() ==> #[trigger] lexed.err_tokens()[k] < lexed.ntok(),
+            forall|i: nat| i < lexed.ntok() ==> (#[trigger] lexed.range_of(i)).0 <= lexed.range_of(i).1 && lexed.range_of(i).1 <= lexed.blen() && lexed.blen() <= u32::MAX,
+            forall|k: int| n0 <= k < errors@.len() ==> (#[trigger] errors@[k]).sp_range() == lexed.range_of(lexed.err_tokens()[k - n0] as nat),      //@C11,C12:lexical-diagnostic-on-its-lexeme
+        ensures oq3_it1.rest().len() == 0,
+        decreases oq3_it1.rest().len(),'''
+        U.raw('''/// &str -> String (std: ToString for str)
+#[verifier::external_body] fn oq3_msg_to_string(msg: &str) -> (r: String) ensures r@ == msg@ { unimplemented!() }
+/// what build_tree does for ONE step handed over by intersperse_trivia: the body of its sink closure, copied from /repo on this run (D39)
+fn oq3_build_tree_sink(builder: &mut SyntaxTreeBuilder, step: oq3_parser::StrStep<'_>)
+    requires step is Error ==> step->Error_pos <= u32::MAX,       // unit SHORT: an error position is a token start or the end of the text (<= 2^31)
+    ensures
+        // a token step adds exactly its text to the tree; no other step adds text; only an error step adds a diagnostic,
+        // placed at exactly the position handed over
+        step is Token ==> final(builder).inner.spelled() == old(builder).inner.spelled() + step->Token_text@ && final(builder).errors == old(builder).errors,      //@C02:token-text-passed-on-verbatim
+        (step is Enter || step is Exit) ==> final(builder).inner.spelled() == old(builder).inner.spelled() && final(builder).errors == old(builder).errors,      //@C02,C12:structure-steps-add-nothing
+        step is Error ==> final(builder).inner.spelled() == old(builder).inner.spelled() && final(builder).errors@.len() == old(builder).errors@.len() + 1
+            && final(builder).errors@.drop_last() == old(builder).errors@
+            && final(builder).errors@.last().1.start.raw == step->Error_pos && final(builder).errors@.last().1.end.raw == step->Error_pos,      //@C12:parser-diagnostic-at-the-given-offset
+{
+    ''' + _sink + '''
+}
+/// the end of build_tree (tree and diagnostics), copied from /repo on this run (D39)
+fn oq3_build_tree_tail(lexed: oq3_parser::LexedStr<'_>, builder: SyntaxTreeBuilder, is_eof: bool) -> (r: (GreenNode, Vec<SyntaxError>, bool))
+    requires
+        forall|k: int| 0 <= k < lexed.err_tokens().len() ==> #[trigger] lexed.err_tokens()[k] < lexed.ntok(),
+        forall|i: nat| i < lexed.ntok() ==> (#[trigger] lexed.range_of(i)).0 <= lexed.range_of(i).1 && lexed.range_of(i).1 <= lexed.blen() && lexed.blen() <= u32::MAX,
+    ensures
+        r.0.text() == builder.inner.spelled(), r.2 == is_eof,                                                  //@C02:tree-spells-the-token-texts
+        // the syntactic diagnostics come first, untouched; then one diagnostic per lexical error, on its lexeme
+        r.1@.len() == builder.errors@.len() + lexed.err_tokens().len(),                                         //@C11:lexical-diagnostics-kept
+        r.1@.take(builder.errors@.len() as int) == builder.errors@,                                            //@C12,C11:syntactic-diagnostics-kept
+        forall|k: int| builder.errors@.len() <= k < r.1@.len() ==> (#[trigger] r.1@[k]).sp_range() == lexed.range_of(lexed.err_tokens()[k - builder.errors@.len()] as nat),      //@C11,C12:lexical-diagnostic-on-its-lexeme
+{
+    let ghost n0 = builder.errors@.len(); let ghost e0 = builder.errors@;
+''' + _tail.replace('@@TAIL_INV@@', _inv).replace('let (node, mut errors) = builder.finish_raw();', 'let (node, mut errors) = builder.finish_raw();\n    proof { assert(errors@.take(n0 as int) =~= e0); }') + '''
+}
+''', note='D39: sink closure body and tail of build_tree copied from /repo')
+        U.build_log = getattr(U, 'build_log', []) + [('D39', 'build_tree: sink closure body -> oq3_build_tree_sink, tail -> oq3_build_tree_tail (copied from /repo; the intersperse_trivia call frame stays a trusted stub)')]
+    f.fn('build_tree', ret='r', props=P, trusted=True, hash_strip=([_mb.group(1), _mb.group(2)] if U.build_tree_frame_ok else None),
          note='FnMut sink closure over rowan\'s GreenNodeBuilder: not verified; contract = unit SHORT (the steps cover the text) + rowan builder',
          spec='''ensures
     r.0.text() == lexed.src(), r.0.is_source_file() == parser_output.entry_is_source_file(),
